@@ -109,6 +109,8 @@ class BGP(protocol.Protocol):
         Starts the initial negotiation of the protocol
         """
         self.init_rib()
+        # nothing is known about the peer's capabilities in this session yet
+        cfg.CONF.bgp.running_config['capability']['remote'] = {}
         # Set transport socket options
         self.transport.setTcpNoDelay(True)
         # set tcp option if you want
@@ -530,6 +532,11 @@ class BGP(protocol.Protocol):
                     if cfg.CONF.bgp.running_config['capability']['local']['add_path'] in \
                             ['ipv4_receive', 'ipv4_both']:
                         self.add_path_ipv4_receive = True
+                if cfg.CONF.bgp.running_config['capability']['remote']['add_path'] in \
+                        ['ipv4_receive', 'ipv4_both']:
+                    if cfg.CONF.bgp.running_config['capability']['local']['add_path'] in \
+                            ['ipv4_send', 'ipv4_both']:
+                        self.add_path_ipv4_send = True
 
             LOG.info("--%s = %s", key, cfg.CONF.bgp.running_config['capability']['remote'][key])
 
